@@ -12,6 +12,7 @@ import (
 	"sort"
 	"strconv"
 	"strings"
+	"sync"
 	"sync/atomic"
 	"testing"
 	"time"
@@ -24,8 +25,9 @@ import (
 )
 
 var (
-	mustWait  = 5 * time.Second       // "must have returned by now": only exhausted by a real hang
-	probeWait = 50 * time.Millisecond // probe of a key after a failed Store; running out proves nothing (see spec)
+	overlapWait = 150 * time.Millisecond // a later concurrent writer is taken to be blocked after this long; only decides WHEN the gate opens
+	mustWait    = 5 * time.Second        // "must have returned by now": only exhausted by a real hang
+	probeWait   = 50 * time.Millisecond  // probe of a key after a failed Store; running out proves nothing (see spec)
 )
 
 type mkey struct{ D, P string }
@@ -37,14 +39,63 @@ func parseKey(v any) mkey {
 
 func (k mkey) json() drv.Step { return drv.Step{"d": k.D, "p": k.P} }
 
-// stubDL is a scripted core.Deadliner: the driver feeds C().
+// stubDL is a scripted core.Deadliner: the driver feeds C(). Add can be turned into a GATE: while gated, every
+// Add call announces itself on `arrived` and blocks until the driver opens the gate. Both stores call Add from
+// inside Store's critical path (v1: in the actor loop, v2: under the write lock), so a gated Add holds a writer
+// inside the store while the driver starts the next one.
 type stubDL struct {
-	ch   chan core.Duty
-	adds atomic.Int64
+	ch      chan core.Duty
+	adds    atomic.Int64
+	mu      sync.Mutex
+	gated   bool
+	waiting []chan struct{}
+	arrived chan struct{}
 }
 
-func (s *stubDL) Add(core.Duty) core.DeadlineStatus { s.adds.Add(1); return core.DeadlineScheduled }
-func (s *stubDL) C() <-chan core.Duty               { return s.ch }
+func newStubDL() *stubDL {
+	return &stubDL{ch: make(chan core.Duty), arrived: make(chan struct{}, 1024)}
+}
+
+func (s *stubDL) Add(core.Duty) core.DeadlineStatus {
+	s.adds.Add(1)
+	s.mu.Lock()
+	if !s.gated {
+		s.mu.Unlock()
+		return core.DeadlineScheduled
+	}
+	ch := make(chan struct{})
+	s.waiting = append(s.waiting, ch)
+	s.mu.Unlock()
+	s.arrived <- struct{}{}
+	<-ch
+
+	return core.DeadlineScheduled
+}
+
+func (s *stubDL) C() <-chan core.Duty { return s.ch }
+
+func (s *stubDL) closeGate() {
+	s.mu.Lock()
+	s.gated = true
+	s.mu.Unlock()
+	for {
+		select {
+		case <-s.arrived:
+		default:
+			return
+		}
+	}
+}
+
+func (s *stubDL) openGate() {
+	s.mu.Lock()
+	s.gated = false
+	for _, ch := range s.waiting {
+		close(ch)
+	}
+	s.waiting = nil
+	s.mu.Unlock()
+}
 
 // tables maps model ids to real objects and back.
 type tables struct {
@@ -178,7 +229,7 @@ type run struct {
 func runOne(tr *drv.Tracer, sid int, sched []drv.Step, impl string) (hung bool) {
 	ctx, cancel := context.WithCancel(context.Background())
 	defer cancel()
-	x := &run{tr: tr, tb: newTables(), dl: &stubDL{ch: make(chan core.Duty)}, ctx: ctx,
+	x := &run{tr: tr, tb: newTables(), dl: newStubDL(), ctx: ctx,
 		readers: map[string]*reader{}, known: map[mkey]bool{}, expd: map[string]bool{}}
 	if impl == "v1" {
 		x.db = aggsigdb.NewMemDB(x.dl)
@@ -193,6 +244,8 @@ func runOne(tr *drv.Tracer, sid int, sched []drv.Step, impl string) (hung bool) 
 			hung = x.await(drv.Str(st["r"]), parseKey(st["k"]))
 		case "Store":
 			hung = x.store(st["set"].([]any))
+		case "CStore":
+			hung = x.cstore(st["sets"].([]any))
 		case "Cancel":
 			hung = x.cancelReader(drv.Str(st["r"]))
 		case "Expire":
@@ -308,32 +361,39 @@ func (x *run) cancelReader(id string) bool {
 	return x.settle()
 }
 
-func (x *run) store(entries []any) bool {
-	set := core.SignedDataSet{}
-	var keys []mkey
-	var logged []any
-	var duty core.Duty
+type call struct {
+	w      string
+	duty   core.Duty
+	set    core.SignedDataSet
+	keys   []mkey
+	logged []any
+	errCh  chan error
+	done   bool
+	err    error
+}
+
+func (x *run) parseSet(w string, entries []any) *call {
+	c := &call{w: w, set: core.SignedDataSet{}, errCh: make(chan error, 1)}
 	for _, e := range entries {
 		m := e.(map[string]any)
 		k := parseKey(m["k"])
 		v := drv.Str(m["v"])
-		duty = x.tb.duty(k.D)
-		set[x.tb.pk(k.P)] = x.tb.val(v)
-		keys = append(keys, k)
-		logged = append(logged, drv.Step{"k": k.json(), "v": v})
+		c.duty = x.tb.duty(k.D)
+		c.set[x.tb.pk(k.P)] = x.tb.val(v)
+		c.keys = append(c.keys, k)
+		c.logged = append(c.logged, drv.Step{"k": k.json(), "v": v})
 	}
-	sort.Slice(keys, func(i, j int) bool { return keys[i].D+"/"+keys[i].P < keys[j].D+"/"+keys[j].P })
-	x.tr.Emit(drv.Step{"ev": "StoreCall", "set": logged})
-	before := x.dl.adds.Load()
-	errCh := make(chan error, 1)
-	go func() { errCh <- x.db.Store(x.ctx, duty, set) }()
-	var err error
-	select {
-	case err = <-errCh:
-	case <-time.After(mustWait):
-		x.tr.Emit(drv.Step{"ev": "Hang", "what": "Store did not return"})
-		return true
-	}
+	sort.Slice(c.keys, func(i, j int) bool { return c.keys[i].D+"/"+c.keys[i].P < c.keys[j].D+"/"+c.keys[j].P })
+	return c
+}
+
+func (x *run) startCall(c *call) {
+	x.tr.Emit(drv.Step{"ev": "StoreCall", "w": c.w, "set": c.logged})
+	go func() { c.errCh <- x.db.Store(x.ctx, c.duty, c.set) }()
+}
+
+func (x *run) logStoreRet(c *call, err error, adds int) {
+	c.done, c.err = true, err
 	res := "ok"
 	if err != nil {
 		res = "err:" + err.Error()
@@ -341,42 +401,127 @@ func (x *run) store(entries []any) bool {
 			res = "mismatch"
 		}
 	}
-	x.tr.Emit(drv.Step{"ev": "StoreRet", "res": res, "adds": int(x.dl.adds.Load() - before)})
-	if err == nil {
-		for _, k := range keys {
-			x.known[k] = true
+	x.tr.Emit(drv.Step{"ev": "StoreRet", "w": c.w, "res": res, "adds": adds})
+}
+
+// afterStores learns from the results of the completed calls and probes the keys of failed ones.
+func (x *run) afterStores(calls []*call) bool {
+	for _, c := range calls {
+		if c.err == nil {
+			for _, k := range c.keys {
+				x.known[k] = true
+			}
 		}
-		return x.settle()
+	}
+	if x.settle() {
+		return true
 	}
 	// A failed call: entries that Go's map order put before the failing one stay stored. Probe the keys the
 	// driver knows nothing about with an extra reader each; a probe that returns a value makes the key known.
-	for _, k := range keys {
-		if x.known[k] {
+	for _, c := range calls {
+		if c.err == nil {
 			continue
 		}
-		x.nprobe++
-		r := x.start("q"+strconv.Itoa(x.nprobe), k)
-		select {
-		case res := <-r.done:
-			x.logReturn(r, res)
-		case <-time.After(probeWait):
-			x.tr.Emit(drv.Step{"ev": "Cancel", "r": r.id})
-			r.cancelled = true
-			r.cancel()
+		for _, k := range c.keys {
+			if x.known[k] {
+				continue
+			}
+			x.nprobe++
+			r := x.start("q"+strconv.Itoa(x.nprobe), k)
 			select {
 			case res := <-r.done:
 				x.logReturn(r, res)
-			case <-time.After(mustWait):
-				x.tr.Emit(drv.Step{"ev": "Hang", "r": r.id, "what": "cancelled Await did not return"})
+			case <-time.After(probeWait):
+				x.tr.Emit(drv.Step{"ev": "Cancel", "r": r.id})
+				r.cancelled = true
+				r.cancel()
+				select {
+				case res := <-r.done:
+					x.logReturn(r, res)
+				case <-time.After(mustWait):
+					x.tr.Emit(drv.Step{"ev": "Hang", "r": r.id, "what": "cancelled Await did not return"})
+					return true
+				}
+			}
+			// what the probe taught may oblige other readers to return before the next stimulus
+			if x.settle() {
 				return true
 			}
 		}
-		// what the probe taught may oblige other readers to return before the next stimulus
-		if x.settle() {
+	}
+	return x.settle()
+}
+
+func (x *run) store(entries []any) bool {
+	c := x.parseSet("w0", entries)
+	before := x.dl.adds.Load()
+	x.startCall(c)
+	select {
+	case err := <-c.errCh:
+		x.logStoreRet(c, err, int(x.dl.adds.Load()-before))
+	case <-time.After(mustWait):
+		x.tr.Emit(drv.Step{"ev": "Hang", "what": "Store did not return"})
+		return true
+	}
+	return x.afterStores([]*call{c})
+}
+
+// cstore runs several Store calls CONCURRENTLY with a forced overlap: the gate holds writer 1 inside the store
+// (in deadliner.Add) while writer 2 is started, and so on; then the gate opens and all must return. How long the
+// driver waits before it takes a later writer to be blocked only decides when the gate opens, never a verdict.
+func (x *run) cstore(sets []any) bool {
+	var calls []*call
+	for i, s := range sets {
+		calls = append(calls, x.parseSet("w"+strconv.Itoa(i+1), s.([]any)))
+	}
+	before := x.dl.adds.Load()
+	x.dl.closeGate()
+	collect := func() { // log the returns seen so far, in the order of the writers
+		for _, c := range calls {
+			if c.done {
+				continue
+			}
+			select {
+			case err := <-c.errCh:
+				x.logStoreRet(c, err, int(x.dl.adds.Load()-before))
+			default:
+			}
+		}
+	}
+	for i, c := range calls {
+		x.startCall(c)
+		wait := overlapWait
+		if i == 0 {
+			wait = mustWait
+		}
+		timer := time.After(wait)
+		select {
+		case <-x.dl.arrived: // somebody sits in Add now
+		case err := <-c.errCh:
+			x.logStoreRet(c, err, int(x.dl.adds.Load()-before))
+		case <-timer:
+			if i == 0 {
+				x.dl.openGate()
+				x.tr.Emit(drv.Step{"ev": "Hang", "what": "Store neither returned nor reached the deadliner"})
+				return true
+			}
+		}
+		collect()
+	}
+	x.dl.openGate()
+	for _, c := range calls {
+		if c.done {
+			continue
+		}
+		select {
+		case err := <-c.errCh:
+			x.logStoreRet(c, err, int(x.dl.adds.Load()-before))
+		case <-time.After(mustWait):
+			x.tr.Emit(drv.Step{"ev": "Hang", "w": c.w, "what": "Store did not return"})
 			return true
 		}
 	}
-	return x.settle()
+	return x.afterStores(calls)
 }
 
 func (x *run) expire(d string) bool {
